@@ -423,6 +423,7 @@ class Domain:
             res = deque()
             res.appendleft(left_index)
             res.appendleft(right_index)
+            self.max_state_index = max(left_index, right_index)
             return res
 
         # exhaust all possible states and
@@ -447,6 +448,7 @@ class Domain:
             last_size - origin_last_coordinate,
         )
 
+        self.max_state_index = -1
         for ks in lazy_indices_product(all_sizes):
             ks_shifted = tuple(ki - origin_last_coordinate for ki in ks)
             outside_states = []
@@ -460,6 +462,11 @@ class Domain:
                 all_states.append(pairing.pair(state_increment))
 
             if not all(outside_states):
+                # the largest index of an admissible state is not always reached on the frontier
+                self.max_state_index = max(
+                    self.max_state_index,
+                    max(x for x, y in zip(all_states, outside_states) if not y),
+                )
                 frontier_left_index = next(
                     x for x, y in zip(all_states, outside_states) if not y
                 )
@@ -489,6 +496,9 @@ class StatesManager:
         frontier_states = domain.compute_total_number_of_states_and_frontier()
         self.frontier_states_indices = frontier_states
         self.max_frontier_indices = max(frontier_states)
+        self.max_state_index = max(
+            self.max_frontier_indices, getattr(domain, "max_state_index", -1)
+        )
         self.domain = domain
         self.origin_coordinates = grid.origin_coordinate
         self.grid = grid
@@ -526,7 +536,7 @@ class StatesManager:
 
         xx = max(x, self._last_projected_index + 1)
 
-        while xx < self.max_frontier_indices:
+        while xx <= self.max_state_index:
             if not is_outside(state_increment := project(xx)):
                 self._last_projected_index = xx
                 return state_increment, False
